@@ -15,7 +15,7 @@ import ast
 from fractions import Fraction
 
 from .. import astutil as A
-from ..alg import Interp, Obj, Poly, PyFunc, Undecided, fn, to_poly
+from ..alg import Interp, Obj, Poly, PyFunc, RaisedInFragment, Undecided, fn, to_poly
 from ..alg import tensorlib_obj as _tensorlib_obj
 
 EXPLANATION = (
@@ -42,6 +42,9 @@ def run(ctx):
     r1 = ctx.rule("C14.R1", "CMP: the empirical p-value is sum over samples of 1[sample >= value] divided by the number of samples (ties count)", "CMP", floor=4)
     r2 = ctx.rule("C14.R2", "PAIR: signal toys <- make_pdf(fixed_poi_fit(poi_test, ...)), background toys <- make_pdf(fixed_poi_fit(1 if q0 else 0, ...)); each statistic at poi_test on its own toy; s+b <- signal statistics, b-only <- background statistics; pvalues = (sb.pvalue, b.pvalue, ratio)", "PAIR", floor=8)
     r3 = ctx.rule("C14.R3", "PAIR: Simultaneous.sample stitches with the same viewer log_prob splits with, iterating the same constituents; sample_shape is forwarded to every constituent and on to the backend distribution object", "PAIR", floor=4)
+    r4 = ctx.rule("C14.R4", "VIEW (interpreted, engine shared with C01.R9 / C10.R6): the tensor viewers that Simultaneous.sample stitches the constituents' draws with: ONE viewer object used first on flat tensors (an expected-data or Asimov evaluation of the model) and then on tensors with leading sample axes places every part at its own positions in both uses, and again after the same buffers were refilled in place", "VIEW", floor=3)
+    from . import viewers
+    viewers.check(ctx, r4)
 
     # ---------------- R1
     pv = ed.methods["pvalue"]
@@ -88,7 +91,32 @@ def run(ctx):
 
     # ---------------- R2
     dm = tc.methods["distributions"]
-    for stat, mu_bkg, history in [(st_, mb_, h_) for st_, mb_ in (("qtilde", Poly()), ("q", Poly()), ("q0", Poly.const(1))) for h_ in ("fresh calculator", "after teststatistic at another mu")]:
+    # every SPELLING of a statistic name that get_test_stat (interpreted) accepts must select the matching hypotheses: the
+    # discovery statistic pairs with background toys generated at mu = 1, the others at mu = 0
+    gts = repo.func("src/pyhf/infer/utils.py", "get_test_stat")
+    ctx.touch(gts)
+    canon_mu = {"q0": Poly.const(1), "qmu": Poly(), "qmu_tilde": Poly()}
+    spellings = []
+    for sp_ in ("qtilde", "q", "q0", "Q0", "Q", "QTILDE", "Qtilde", " q0", "q0 "):
+        try:
+            f_ = Interp({"name": sp_, **{n_: Obj(n_) for n_ in canon_mu}, "InvalidTestStatistic": Obj("InvalidTestStatistic")}, {}, {}).run(A.strip_docstring(gts.node.body))
+        except RaisedInFragment:
+            if sp_ in ("qtilde", "q", "q0"):
+                ctx.violated(r2, gts, f"get_test_stat({sp_!r})", "a documented test-statistic name is refused")
+            else:
+                ctx.holds(r2, f"src/pyhf/infer/utils.py::get_test_stat({sp_!r})", "refused: only the exact names select a statistic")
+            continue
+        except Undecided as e:
+            ctx.unrecognised(r2, gts, f"get_test_stat({sp_!r})", f"not interpretable: {e}")
+            continue
+        if not (isinstance(f_, Obj) and f_.name in canon_mu):
+            ctx.unrecognised(r2, gts, f"get_test_stat({sp_!r})", f"returns {getattr(f_, 'name', f_)!r}, not one of the three statistics")
+            continue
+        if sp_ in ("qtilde", "q", "q0") and f_.name != {"qtilde": "qmu_tilde", "q": "qmu", "q0": "q0"}[sp_]:
+            ctx.violated(r2, gts, f"get_test_stat({sp_!r})", f"the name {sp_!r} selects {f_.name}", expected={"qtilde": "qmu_tilde", "q": "qmu", "q0": "q0"}[sp_], found=f_.name)
+            continue
+        spellings.append((sp_, canon_mu[f_.name]))
+    for stat, mu_bkg, history in [(st_, mb_, h_) for st_, mb_ in spellings for h_ in ("fresh calculator", "after teststatistic at another mu")]:
         rec = {"fits": [], "ts": []}
 
         def fpf(args, kw):
